@@ -40,7 +40,7 @@ ImplAct(s) ==
     [] s.a = "dial_addr" -> UDialAddr(s.p, s.addr)
     [] s.a = "add_known" -> AddKnown(s.p, s.addr)
     [] s.a = "dial_fail" -> TDialFail(s.c)
-    [] s.a = "established" -> TEstablished(s.c)
+    [] s.a = "established" -> IF "lost" \in DOMAIN s /\ s.lost THEN TEstablishedLost(s.c) ELSE TEstablished(s.c)
     [] s.a = "in_est" -> TInEst(s.c, s.p)
     [] s.a = "accept_ok" -> TAcceptOk(s.c)
     [] s.a = "accept_err" -> TAcceptErr(s.c)
@@ -50,7 +50,8 @@ ImplAct(s) ==
     [] s.a = "closed" -> ConnClosed(s.c)
     [] s.a = "in_drop" -> TInDrop(s.c)
 
-SameCall(a, b) == a.c = b.c /\ a.cid = b.cid /\ (a.c \in {"dial", "open"} => ToSet(a.addrs) = ToSet(b.addrs))
+SameCall(a, b) == /\ a.c = b.c /\ a.cid = b.cid /\ (a.c \in {"dial", "open"} => ToSet(a.addrs) = ToSet(b.addrs))
+                  /\ (a.c = "accept" => a.ok = b.ok)
 SameEvent(a, b) == /\ a.k = b.k /\ a.cid = b.cid
                    /\ (a.k \in {"dial_failure", "open_failure"} => ToSet(a.addrs) = ToSet(b.addrs))
                    /\ (a.k \in {"est", "closed", "proto_dial_failure"} => a.peer = b.peer)
